@@ -118,6 +118,22 @@ macro_rules! fp_suite {
                         outs! {"out" => b(&r.to_slice()), "outz" => Value::Bool(r.is_zero()), "outeq" => Value::Bool(Some(r) == <$t>::from_slice(&r.to_slice()))}
                     });
                 }
+                // boundary GRID: bases {0, 1, -1, 2, -2, 1/2} x exponents {0, 1, 2, 3, p-1, p-2, (p-1)/2, (p+1)/2, p-3}
+                {
+                    let (zero, one) = (<$t>::zero(), <$t>::one());
+                    let two = one + one;
+                    let half = two.inverse().unwrap();
+                    let bases = [zero, one, -one, two, -two, half];
+                    let exps = [zero, one, two, two + one, -one, -two, -half, half, -(two + one)];
+                    for fa in bases {
+                        for fe in exps {
+                            let (sa, se) = (fa.to_slice(), fe.to_slice());
+                            out.call("f.pow", json!({"F": $fstr, "a": b(&sa), "e": b(&se)}), || outs! {"out" => b(&fa.pow(fe).to_slice())});
+                        }
+                        let sa = fa.to_slice();
+                        out.call("f.inv", json!({"F": $fstr, "a": b(&sa)}), || outs! {"out" => opt_bytes(fa.inverse().map(|x| x.to_slice()))});
+                    }
+                }
                 // exponents whose Montgomery representation is a tiny integer / single limb
                 for (i, v) in pool.lo.iter().enumerate() {
                     let fe = mk(v);
